@@ -202,12 +202,15 @@ fn run_scenario(scn: usize, seed: u64, n_ops: usize, tr: &mut Tracer, st: &mut S
   let scratch = Scratch::new("reloc");
   let cwd = scratch.path.clone();
   std::env::set_current_dir(&cwd)?;
-  let a_abs = cwd.join("a").join("idx");
-  let b_abs = cwd.join("b").join("idx");
+  // directory names: unrelated, or one a textual (not component-wise) prefix of the other, as when a
+  // backup `idx.bak` is restored to `idx` or `idx` is backed up to `idx.bak`
+  let (a_rel, b_rel) = *pick(&mut r, &[("a/idx", "b/idx"), ("a/idx", "b/idx"), ("idx.bak", "idx"), ("idx", "idx.bak"), ("d/idx_old", "d/idx"), ("d/idx", "d/idx2")]);
+  let a_abs = cwd.join(a_rel);
+  let b_abs = cwd.join(b_rel);
   let via_a = if chance(&mut r, 1, 2) { "rel" } else { "abs" };
   let via_b = if chance(&mut r, 1, 2) { "rel" } else { "abs" };
-  let a_path = if via_a == "rel" { PathBuf::from("a/idx") } else { a_abs.clone() };
-  let b_path = if via_b == "rel" { PathBuf::from("b/idx") } else { b_abs.clone() };
+  let a_path = if via_a == "rel" { PathBuf::from(a_rel) } else { a_abs.clone() };
+  let b_path = if via_b == "rel" { PathBuf::from(b_rel) } else { b_abs.clone() };
   let how = if chance(&mut r, 1, 4) { "move" } else { "copy" };
   let fate = if how == "move" {
     "moved"
@@ -269,7 +272,7 @@ fn run_scenario(scn: usize, seed: u64, n_ops: usize, tr: &mut Tracer, st: &mut S
   }
   let inv_before = inventory(&a_abs);
   tr.emit(json!({
-    "ev": "reset", "scn": scn, "via_a": via_a, "via_b": via_b, "how": how, "fate": fate,
+    "ev": "reset", "scn": scn, "via_a": via_a, "via_b": via_b, "how": how, "fate": fate, "a_dir": a_rel, "b_dir": b_rel,
     "pre": idver_json(&pre), "pre_digest": pre_digest, "segnames": segnames,
     "a_exists": a_abs.exists(), "a_files": inv_before.len(),
   }));
